@@ -2,6 +2,7 @@ package main
 
 import (
 	"fmt"
+	"math"
 	"math/rand"
 	"os"
 	"path/filepath"
@@ -77,6 +78,15 @@ func engineC19History(ctx *Ctx) {
 	defer os.Chdir(origWD)
 	for i := 0; i < n; i++ {
 		cmds := vlib.GenCommands(r, vlib.DBSpec{N: 5 + r.Intn(25), TieHeavy: false})
+		nDup := 0
+		if i%4 == 2 {
+			// copies of one entry (equal lexical scores) whose embedding rows will differ in the last bit of one component
+			nDup = 2 + r.Intn(3)
+			base := cmds[r.Intn(len(cmds))]
+			for k := 0; k < nDup; k++ {
+				cmds = append(cmds, base)
+			}
+		}
 		loaded, err := vlib.LoadCommands(cmds)
 		if err != nil || len(loaded.Commands) == 0 {
 			continue
@@ -108,6 +118,17 @@ func engineC19History(ctx *Ctx) {
 			}
 			cv = append(cv, c19Unit(sum, 1))
 		}
+		if nDup > 0 {
+			for k := len(cv) - nDup; k < len(cv); k++ {
+				row := append([]float32(nil), cv[k]...)
+				for t := 0; t < 1+r.Intn(2); t++ {
+					j := r.Intn(len(row))
+					row[j] = math.Nextafter32(row[j], float32([]float64{-2, 2}[r.Intn(2)]))
+				}
+				cv[k] = row
+			}
+			ctx.R.Path("history-databases-with-copies-whose-rows-differ-in-the-last-bit", 1)
+		}
 		dir := filepath.Join(ctx.Scratch, fmt.Sprintf("eh%d", i))
 		os.MkdirAll(dir, 0o755)
 		os.WriteFile(filepath.Join(dir, "glove.bin"), c19Glove(uint32(len(wl)), wl, vl), 0o644)
@@ -121,12 +142,16 @@ func engineC19History(ctx *Ctx) {
 			return l
 		}
 		without, with := mk(), mk()
+		nofiles := mk() // a third copy, on which the feature is tried later where no embedding files exist
+		emptyDir := filepath.Join(ctx.Scratch, fmt.Sprintf("eh%d-empty", i))
+		os.MkdirAll(emptyDir, 0o755)
 		os.Chdir(dir)
 		ok := ctx.R.Guard("C19", "LoadEmbeddings", kind, func() { with.LoadEmbeddings() })
 		os.Chdir(origWD)
 		if !ok || !with.HasEmbeddings() {
 			ctx.R.Inconcl("embeddings not attached")
 			os.RemoveAll(dir)
+			os.RemoveAll(emptyDir)
 			continue
 		}
 		trace := []string{"database:" + kind}
@@ -154,6 +179,7 @@ func engineC19History(ctx *Ctx) {
 				extra := vlib.MustLoad(vlib.GenCommands(r, vlib.DBSpec{N: 1 + r.Intn(3)})).Commands
 				without.Commands = append(without.Commands, extra...)
 				with.Commands = append(with.Commands, extra...)
+				nofiles.Commands = append(nofiles.Commands, extra...)
 				trace = append(trace, fmt.Sprintf("append(%d)", len(extra)))
 				continue
 			}
@@ -161,6 +187,40 @@ func engineC19History(ctx *Ctx) {
 			if r.Intn(5) == 0 {
 				q = vlib.WithOddCase(r, q)
 				ctx.R.Path("history-queries-with-odd-case-mappings", 1)
+			}
+			if (step == 1 || step == 3) && i%2 == 0 {
+				// an entry is edited in place (same number of entries, nothing rebuilt by the caller) on all copies alike, then the
+				// feature is tried on the third copy where no embedding files exist: that copy goes on answering exactly like the
+				// copy on which the feature was never touched
+				j := r.Intn(len(without.Commands))
+				w := vlib.Word(r, words)
+				for _, x := range []*database.Database{without, with, nofiles} {
+					x.Commands[j].Description += " " + w
+					x.Commands[j].Keywords = append(append([]string(nil), x.Commands[j].Keywords...), w)
+				}
+				os.Chdir(emptyDir)
+				ctx.R.Guard("C19", "LoadEmbeddings(no files)", kind, func() { nofiles.LoadEmbeddings() })
+				os.Chdir(origWD)
+				trace = append(trace, fmt.Sprintf("entry %d edited in place (+%q), LoadEmbeddings where no files exist on the third copy", j, w))
+				if nofiles.HasEmbeddings() {
+					ctx.R.Violate(vlib.Violation{Property: "C19", Clause: "inert-without-files", Path: "history/" + kind, Detail: "an embedding index is attached although no embedding files exist", Witness: trace})
+				}
+				for _, qq := range []string{q, w, vlib.GenQuery(r, words, 2, 0)} {
+					oo := database.SearchOptions{Limit: len(without.Commands) + 1, AllPlatforms: true, UseNLP: r.Intn(2) == 0}
+					csn := map[string]interface{}{"history": append([]string(nil), trace...), "query": qq, "opts": vlib.OptsJ(oo), "n": len(without.Commands)}
+					ctx.R.Begin(csn)
+					ctx.R.Eval(1)
+					ctx.R.Guard("C19", "SearchUniversal", csn, func() {
+						a := vlib.Canon(without.Commands, without.SearchUniversal(qq, oo))
+						c := vlib.Canon(nofiles.Commands, nofiles.SearchUniversal(qq, oo))
+						ctx.R.Path("history-pairs-feature-tried-without-files", 1)
+						if !vlib.Exact(a, c) {
+							ctx.R.Violate(vlib.Violation{Property: "C19", Clause: "inert-without-files", Path: "history/" + kind,
+								Detail:  fmt.Sprintf("after the same history, the copy on which LoadEmbeddings was called where no embedding files exist answers %q differently from the copy on which it was never called", qq),
+								Witness: map[string]interface{}{"case": csn, "never_called": a, "called_without_files": c}})
+						}
+					})
+				}
 			}
 			o := database.SearchOptions{Limit: len(with.Commands) + 1, AllPlatforms: true, UseNLP: r.Intn(3) > 0}
 			cs := map[string]interface{}{"history": append([]string(nil), trace...), "query": q, "opts": vlib.OptsJ(o), "n": len(with.Commands)}
@@ -224,5 +284,6 @@ func engineC19History(ctx *Ctx) {
 			ctx.R.Sample(map[string]interface{}{"history": trace})
 		}
 		os.RemoveAll(dir)
+		os.RemoveAll(emptyDir)
 	}
 }
